@@ -11,7 +11,7 @@ import Model.FixedFloat
       `N / 10^k`.  A text that is not such a decimal gives +0 (the code ignores ParseFloat's error and keeps its 0).
     * `formatFloatGo bits x` — `strconv.FormatFloat(x, 'f', -1, bits)`: the shortest decimal text that parses back to `x`
       (`parseFloatGo bits text = x` is checked on the very text returned), found by trying 1, 2, … significant digits
-      and, per length, the two decimals of that length that enclose `x`, the nearer one first.
+      and, per length, the two decimals of that length that enclose `x`, the nearer one first (tie: even last digit).
     * `quoGo bits raw mult` — the 128-bit `big.Float` quotient converted to the target: `Fixed.F128.asFloat` /
       `asFloat32` of the C03 model.
 
@@ -79,7 +79,7 @@ where
     | p+1, f => digitsPadM p (f / 10) ++ [48 + f % 10]
 
 /-- the candidates with `nd` significant digits for the magnitude `A/B`: the two decimals of that length enclosing it,
-    the nearer one first (a tie cannot arise between two candidates that both parse back) -/
+    the nearer one first, on a tie the one with the even last digit (strconv rounds half to even) -/
 def candidates (neg : Bool) (A B : Nat) (nd : Nat) : List Str :=
   let k : Int := (nd : Int) - decPos A B            -- scale by 10^k: nd digits in front of the point
   let num := if k ≥ 0 then A * 10^k.toNat else A
@@ -87,7 +87,7 @@ def candidates (neg : Bool) (A B : Nat) (nd : Nat) : List Str :=
   let q := num / den
   let r := num % den
   if r = 0 then [renderDec neg q k]
-  else if 2 * r ≤ den then [renderDec neg q k, renderDec neg (q + 1) k]
+  else if 2 * r < den ∨ (2 * r = den ∧ q % 2 = 0) then [renderDec neg q k, renderDec neg (q + 1) k]
   else [renderDec neg (q + 1) k, renderDec neg q k]
 
 def shortestSearch (bits : Nat) (x : Flt) (neg : Bool) (A B : Nat) : Nat → Nat → Str
